@@ -284,6 +284,7 @@ pub struct Gen {
     last_step: Option<J>,
     long_bytes: Vec<u32>,
     later_restore: Option<String>,
+    burst_done: bool,
     cur_n: Option<String>,
 }
 
@@ -314,6 +315,7 @@ impl Gen {
             last_step: None,
             long_bytes: cx.long_keys("bytes"),
             later_restore: None,
+            burst_done: false,
             cur_n: None,
         }
     }
@@ -652,6 +654,22 @@ impl Gen {
             self.queue.push_back(json!({"e": "commit"}));
             let h = self.fresh("r");
             self.queue.push_back(json!({"e": "br", "h": h}));
+            return;
+        }
+        if self.p.w_savepoint > 0 && !self.burst_done && rng.random_range(0..300) < 2 {
+            // a long-running application: the savepoint counter has passed 256 (ids are stored little-endian; every
+            // savepoint call advances the one counter) when a persistent savepoint is taken while an older one exists
+            self.burst_done = true;
+            self.queue.push_back(json!({"e": "bw"}));
+            self.queue.push_back(json!({"e": "spp"}));
+            for _ in 0..rng.random_range(255..300) {
+                let s = self.fresh("s");
+                self.queue.push_back(json!({"e": "spe", "s": s}));
+                self.queue.push_back(json!({"e": "spdrop", "s": s}));
+            }
+            self.queue.push_back(json!({"e": "spp"}));
+            self.queue.push_back(json!({"e": "splist"}));
+            self.queue.push_back(json!({"e": "commit"}));
             return;
         }
         if self.p.w_savepoint > 0 && rng.random_range(0..100) < 7 {
